@@ -177,8 +177,13 @@ def execute(c, tag=''):
                       meta=dict(fr.metadata), rng=fr.rng, rng_state=str(fr.rng.bit_generator.state),
                       fmin=fr.fmin, fmax=fr.fmax, df=fr.df, dt=fr.dt)
         fr.data = D.copy()
-        sig = fr.add_signal(**kw)
-        return dict(fr=fr, sig=sig, before=before)
+        # every execution gets its own copies of the caller's arrays; what they hold afterwards is reported so
+        # that a write into the caller's signal description (which would change the next injection) is seen
+        kw_run = {k: (v.copy() if isinstance(v, np.ndarray) else v) for k, v in kw.items()}
+        in_before = {k: list(v.flat) for k, v in kw_run.items() if isinstance(v, np.ndarray)}
+        sig = fr.add_signal(**kw_run)
+        in_after = {k: list(kw_run[k].flat) for k in in_before}
+        return dict(fr=fr, sig=sig, before=before, in_before=in_before, in_after=in_after)
 
     with frame_patches():
         leaves = core.explore(run, pre, cap=400)
@@ -298,11 +303,20 @@ def replay_add_signal(p):
     nm0 = (fr.noise_mean, fr.noise_std)
     meta0 = dict(fr.metadata)
     kw = real_callables(c, p)
+    kw0 = {k: np.array(v, copy=True) for k, v in kw.items() if isinstance(v, np.ndarray)}
     msgs = []
     try:
         sig = fr.add_signal(**kw)
     except Exception as e:
         return True, f"add_signal raised {type(e).__name__}: {e} (cfg={c})"
+    changed = [k for k, v0 in kw0.items() if not np.array_equal(kw[k], v0)]
+    if changed:
+        # the same description injected again (into an identical frame) must give the same array
+        fr2 = stg.Frame(fchans=c['Fc'], tchans=c['T'], df=p['df'], dt=p['dt'], fch1=p['fch1'], ascending=c['asc'], seed=1)
+        fr2.ts = fr2.ts + p.get('t_origin', 0.0)
+        sig2 = fr2.add_signal(**kw)
+        return True, (f"C01: add_signal wrote into the caller's {changed} array(s); injecting the same description again returns a "
+                      f"{'different' if not np.allclose(sig2, sig, rtol=1e-9, atol=1e-12) else 'same'} array (max diff {float(np.max(np.abs(sig2 - sig)))!r})")
     spec, (bmin, bmax) = float_spec(c, p, fs0, ts0, fr.df, fr.dt, fr.fmin)
     tol = 1e-9 * max(1.0, float(np.max(np.abs(spec))), float(np.max(np.abs(D))))
     bad = False
